@@ -416,23 +416,47 @@ Qed.
 Lemma nth_map_nil {A B} (f : list A -> list B) (l : list (list A)) t : f [] = [] -> nth t (map f l) [] = f (nth t l []).
 Proof. intros H. revert t. induction l as [|x r IH]; intros [|t]; cbn; auto. Qed.
 
+Lemma pick_bitems cfg prog hint j kd : nth_error cfg j = Some kd ->
+  Forall (bitem j kd) (pick hint (map (write_items_on cfg j) prog)).
+Proof.
+  intros Hk. set (its := pick hint (map (write_items_on cfg j) prog)).
+  assert (M : MergeOf (lths (map (write_items_on cfg j) prog)) its) by apply pick_merge.
+  apply Forall_forall. intros it Hi. destruct (merge_elems _ _ _ M Hi) as (t & Ht). unfold lths in Ht.
+  rewrite (nth_map_nil (write_items_on cfg j)) in Ht by reflexivity.
+  destruct (write_items_lines cfg j kd (nth t prog []) Hk) as [F _]. rewrite Forall_forall in F. now apply F.
+Qed.
+
+(* the stream every underlying sink of branch j holds after the serial execution of the sink calls
+   (and the final Sync) is the concatenation of the lines of those calls *)
+Lemma serial_branch_outs cfg prog hint j kd : nth_error cfg j = Some kd ->
+  forall u, u < nsinks kd ->
+  outs (serial_branch cfg prog hint j) u = serial_lines cfg prog hint j.
+Proof.
+  intros Hk u Hu. unfold serial_branch, serial_lines.
+  exact (serial_out j kd _ (pick_bitems cfg prog hint j kd Hk) u Hu).
+Qed.
+
 Lemma serial_branch_ok cfg prog hint j kd : nth_error cfg j = Some kd ->
   forall u, u < nsinks kd ->
   StreamOk (lths (map (thread_lines j) prog)) (outs (serial_branch cfg prog hint j) u).
 Proof.
-  intros Hk u Hu. unfold serial_branch.
+  intros Hk u Hu. rewrite (serial_branch_outs cfg prog hint j kd Hk u Hu). unfold serial_lines.
   set (its := pick hint (map (write_items_on cfg j) prog)).
   assert (M : MergeOf (lths (map (write_items_on cfg j) prog)) its) by apply pick_merge.
-  assert (F : Forall (bitem j kd) its).
-  { apply Forall_forall. intros it Hi. destruct (merge_elems _ _ _ M Hi) as (t & Ht). unfold lths in Ht.
-    rewrite (nth_map_nil (write_items_on cfg j)) in Ht by reflexivity.
-    destruct (write_items_lines cfg j kd (nth t prog []) Hk) as [F _]. rewrite Forall_forall in F. now apply F. }
-  exists (flat_map item_lines its). split.
-  - apply (merge_ext (fun t => flat_map item_lines (lths (map (write_items_on cfg j) prog) t))).
-    + intros t. unfold lths. rewrite (nth_map_nil (write_items_on cfg j)) by reflexivity.
-      rewrite (nth_map_nil (thread_lines j)) by reflexivity. apply (write_items_lines cfg j kd _ Hk).
-    + now apply merge_flat_map.
-  - now apply (serial_out j kd its F u).
+  exists (flat_map item_lines its). split; [|reflexivity].
+  apply (merge_ext (fun t => flat_map item_lines (lths (map (write_items_on cfg j) prog) t))).
+  - intros t. unfold lths. rewrite (nth_map_nil (write_items_on cfg j)) by reflexivity.
+    rewrite (nth_map_nil (thread_lines j)) by reflexivity. apply (write_items_lines cfg j kd _ Hk).
+  - now apply merge_flat_map.
+Qed.
+
+(* the wire model (lines concatenated once) IS the serial reference, for every input *)
+Theorem model_serial_eq i : model i = model_serial i.
+Proof.
+  unfold model, model_serial. f_equal. apply map_ext_in. intros jk Hin.
+  destruct (branches_in _ _ Hin) as [Hk _].
+  f_equal. f_equal. f_equal. apply map_ext_in. intros u Hu. apply in_seq in Hu.
+  f_equal. symmetry. apply (serial_branch_outs _ _ _ _ _ Hk). lia.
 Qed.
 
 Lemma nth_map_lt {A B} (f : A -> B) l n d d' : n < length l -> nth n (map f l) d = f (nth n l d').
@@ -440,7 +464,7 @@ Proof. revert n. induction l as [|x r IH]; intros [|n] H; cbn in *; try lia; aut
 
 Theorem spec_model i : wf i = true -> spec i (model i) = true.
 Proof.
-  intros W. unfold spec, model, wf in *. cbn [sx_l].
+  intros W. rewrite model_serial_eq. unfold spec, model_serial, wf in *. cbn [sx_l].
   rewrite map_length, branches_length, Nat.eqb_refl. cbn [andb].
   apply forallb_forall. intros jk Hin.
   rewrite forallb_forall in W. specialize (W jk Hin).
